@@ -34,6 +34,12 @@ def run(c):
         "lookup steps; the harness's contexts end 'at one instant' for the decision to dial (standard-library semantics), the "
         "production dialer's refusal to dial on a finished context is emulated (the repo's mockdns test dialer ignores contexts)",
         "go-smtp server behaviour (REQUIRETLS advertised on TLS sessions only) is part of the scripted environment",
+        "address families: IPv6 addresses of MX hosts (fd00:c05::n) are carried to the loopback server of the same number by the harness's "
+        "dialer, which stands for the network; A and AAAA RRsets of one name share one AD bit; a host without ANY address record "
+        "(the real code answers 'no such host', a permanent error) is outside the generated world",
+        "`C05 via`: the queue's FIRST attempt is observed (in-memory meta-data; max_tries 1); retries from the spool and restarts are C01's; "
+        "the harness plays the SMTP endpoint for the real msgpipeline (writes TLS-Required / REQUIRETLS / SMTPUTF8 into its MsgMetadata "
+        "object before Body), the quarantine decision comes from a scripted check through msgpipeline's own applyResults",
     ]
     return c.finish(
         rule="histories of 1-3 consecutive messages (plain / REQUIRETLS / TLS-Required: No / both / quarantined before or after RCPT; 1-3 recipients "
@@ -52,7 +58,12 @@ def run(c):
         "until released; the fetcher honours its context), one of them (first / middle / last / none) cancelled or past its deadline "
         "meanwhile and aborted, the others run to completion, optionally followed by consecutive messages on the same pool; observation = per-recipient "
         "ok/temp/perm and which server received DATA over TLS or plaintext, with or without the REQUIRETLS parameter, on a new or reused "
-        "connection; distinct = distinct histories",
+        "connection; address families of every MX host (A only / AAAA only / both, also behind an alias); plus `C05 via`: histories of 1-5 "
+        "messages that reach the remote target THROUGH the real queue.Queue (Target = the remote target; front q: driven in msgpipeline's "
+        "call order Start, AddRcpt, body-stage update of the source's MsgMetadata object, Body, Commit; front p: through the real "
+        "msgpipeline with a scripted check that asks for quarantine at the connection / sender / recipient / body stage) with "
+        "REQUIRETLS, TLS-Required: No, Quarantine and SMTPUTF8 changing between Start and the end of the body stage, observed at the "
+        "remote target's Start (meta-data handed over) and at the servers (SMTPUTF8 parameter too); distinct = distinct histories",
         explanation="theorems over all policy lists, fact assignments and histories of any length; model tied to connect.go / remote.go / security.go / "
         "pool.go by differential histories; monitor evaluates the property from scripted ground truth and what the servers received",
         search=search,
